@@ -90,7 +90,7 @@ func kfNot(args []KeyBuilderStage) (KeyBuilderStage, error) {
 func kfAnd(args []KeyBuilderStage) (KeyBuilderStage, error) {
 	return KeyBuilderStage(func(context KeyBuilderContext) string {
 		for _, arg := range args {
-			if arg(context) == FalsyVal {
+			if !Truthy(arg(context)) {
 				return FalsyVal
 			}
 		}
@@ -102,7 +102,7 @@ func kfAnd(args []KeyBuilderStage) (KeyBuilderStage, error) {
 func kfOr(args []KeyBuilderStage) (KeyBuilderStage, error) {
 	return KeyBuilderStage(func(context KeyBuilderContext) string {
 		for _, arg := range args {
-			if arg(context) != FalsyVal {
+			if Truthy(arg(context)) {
 				return TruthyVal
 			}
 		}
